@@ -246,6 +246,9 @@ class Check:
                 else:
                     reproduced = v["id"] in (out.get("failed") or [])
                 key = "%s/%s/%s/%s" % (ctx["label"], h["Name"], v["kind"], v["id"])
+                if v["kind"] == "panic":
+                    # panics are identified by message class and source file (line numbers of generated code may shift)
+                    key += ":%s@%s" % (re.sub(r"[^A-Za-z ]+", "", v.get("msg", ""))[:60].strip(), (v.get("site", "") or "").split(":")[0])
                 if not reproduced:
                     self.mismatch.append("%s: counterexample for %s did not reproduce natively (inputs %s; native outcome %s)" % (h["Name"], v["id"], fmt_inputs(v.get("inputs")), json.dumps(out)[:300]))
                     continue
@@ -342,7 +345,7 @@ echo "not reproduced"; exit 0
                            "obligation_ids": h.get("Asserts"), "covers": sorted((h.get("Covers") or {}).keys()), "wall_s": round(h["Wall"] / 1e9, 2)} for h in self.runs],
             "functions_encoded": {k: funcs[k] for k in sorted(funcs) if not k.startswith("Verif") and ".verif" not in k and ".Verif" not in k},
             "bounds": bounds or {}, "outside_claim": outside or [], "queries": queries,
-            "solvers": ["z3 4.8.12 (primary, one z3 -in per worker, push/pop)"],
+            "solvers": ["z3 5.1.0 (z3-new; primary, one process per worker, push/pop)", "z3 4.8.12 and cvc5 1.0 (one-shot re-decision of obligations the primary leaves unknown)"],
             "stubs": sorted(stubs), "inconclusive_reasons": self.problems[:40],
             "known_findings_hit": [k["key"] for k in self.known_hits],
             "reduced_bounds": self.reduced, "not_covered": self.not_covered,
